@@ -87,7 +87,7 @@ impl Scenario for C17 {
     fn meta(&self) -> Meta {
         Meta {
             level: "exploration",
-            rule: "run = honest nodes A (dials out through its static-peer path) and B (accepts connections), real RoutingThread/Network/Peer handshake code on both, attacker M in the middle of every connection plus up to 3 extra connections of its own; 2..8/12 attacker moves from {forward, drop, replay an observed message on the same or another connection, reflect an observed challenge back as a HandshakeChallenge, redirect a response to another connection, respond with own key, respond unsolicited, wrong-version response, send own challenge, open connection, close connection, let time pass so that A redials its static peer on the same peer index (challenges of the closed connection are void)}; after every move the network runs to quiescence. Monitor (after every delivery to an honest node): a peer on connection c becomes Connected under K only if the delivered message is a response whose signature verifies under K over a challenge this node itself sent on c and that was still outstanding; a challenge authenticates at most once; K is never the node's own key; a response stating a core version with another major/minor number never yields a connected peer (a third of the runs put A, B or both in lite/SPV mode); an authenticated (c,K) stays Connected with K and address_to_peers[K]==c while messages arrive on other connections. A faithful relay of the honest peer's answer is not flagged. distinct_nontrivial = distinct move sequences during which >= 1 challenge was outstanding when M acted.",
+            rule: "run = honest nodes A (dials out through its static-peer path) and B (accepts connections), real RoutingThread/Network/Peer handshake code on both, attacker M in the middle of every connection plus up to 3 extra connections of its own; 2..8/12 attacker moves from {forward, drop, replay an observed message on the same or another connection, reflect an observed challenge back as a HandshakeChallenge, redirect a response to another connection, respond with own key, respond unsolicited, wrong-version response, send own challenge, open connection, close connection, let time pass so that A redials its static peer on the same peer index (challenges of the closed connection are void)}; after every move the network runs to quiescence. Monitor (after every delivery to an honest node): a peer on connection c becomes Connected under K only if the delivered message is a response whose signature verifies under K over a challenge this node itself sent on c and that was still outstanding; a challenge authenticates at most once; K is never the node's own key; a response stating a core version with another major/minor number never yields a connected peer (a third of the runs put A, B or both in lite/SPV mode); the key index (address_to_peers) never names a connected peer that holds another key; an authenticated (c,K) stays Connected with K and address_to_peers[K]==c while messages arrive on other connections. A faithful relay of the honest peer's answer is not flagged. distinct_nontrivial = distinct move sequences during which >= 1 challenge was outstanding when M acted.",
             real: &["RoutingThread::process_network_event", "Network::handle_new_peer/handle_handshake_challenge/handle_handshake_response", "Peer::initiate_handshake/handle_handshake_challenge/handle_handshake_response", "PeerCollection", "Message/Handshake codecs", "rate limiters"],
             stubs: &["SimNet with an attacker-controlled relay", "SimClock", "event-granularity scheduler"],
             assumptions: &["attacker cannot forge signatures (it only signs with its own key)", "sign/verify primitives trusted by the monitor"],
@@ -239,6 +239,20 @@ impl Scenario for C17 {
                                     "C17|connected-without-valid-response",
                                     format!("node{} marked connection {} as connected under a key without a response on that connection signed by that key over an outstanding challenge it had sent there", n, idx),
                                 );
+                            }
+                        }
+                    }
+                    // the key index never names a connected peer that holds another key
+                    {
+                        let peers = block_on(sim.nodes[n].peer_lock.read());
+                        for (k, idx) in peers.address_to_peers.iter() {
+                            if let Some(p) = peers.index_to_peers.get(idx) {
+                                if matches!(p.peer_status, PeerStatus::Connected) && p.public_key.is_some() && p.public_key != Some(*k) {
+                                    r.violate(
+                                        "C17|key-index-names-peer-of-another-key",
+                                        format!("node{}: address_to_peers maps a key to connection {} which is connected under a different key (that key never signed a challenge of this connection)", n, idx),
+                                    );
+                                }
                             }
                         }
                     }
